@@ -387,4 +387,6 @@ RULES = [
     ("C05.R3", "genetic phasing of homozygous-parent variants on by default", r3),
     ("C05.R4", "transmission bit layout agrees between C++ and Python", r4),
 ]
-FLOORS = {"C05.R1": 16, "C05.R2": 14, "C05.R3": 4, "C05.R4": 7}
+# instance floors: about 60% of the instances confirmed by hand on the reference tree -- a rule that suddenly matches far fewer
+# sites fails the run (exit 2); a clean-up that merges two sites into one does not
+FLOORS = {"C05.R1": 9, "C05.R2": 8, "C05.R3": 2, "C05.R4": 4}
